@@ -12,7 +12,7 @@ COQ_CASE_TYPE = "case07"
 SHARD = 40
 RULE = ("sequences of 1..6 legacy requests (OK-terminated queries, the documented no-OK queries a/i/mr/pi/qm/qg/v in any case and with arguments, commands, "
         "missing port / missing text) against the conforming legacy board: each reply line preceded by 0, 1, 99, 100 or 101 empty reads at each of its positions; "
-        "plus one disturbance: an I/O exception (pyserial's SerialException / SerialTimeoutException / PortNotOpenError or a plain OSError) at the write (attempts are counted) or at any read, an error line, total silence; "
+        "plus one disturbance: an I/O exception (pyserial's SerialException / SerialTimeoutException / PortNotOpenError, a plain OSError, or a RuntimeError carrying no error number) at the write (attempts are counted) or at any read, an error line, total silence; "
         "non-trivial = a reply preceded by at least one empty read, or a disturbance")
 TRUSTED = ["pyserial behaviour = fake port", "the conforming legacy board: data line then OK for ordinary queries, one line for the no-OK queries, OK for commands"]
 ASSUMPTIONS = ["ASCII replies; faults are SerialException"]
@@ -73,7 +73,7 @@ def generate(rng, tier):
                     exps = [None] * len(exps) if fam != "conforming" else exps
         cases.append({"has_port": hp, "reqs": reqs, "events": sum(parts, []), "expect": exps if hp else [None] * len(exps), "family": fam if hp else "no-port"})
         if fam == "fault" and hp:
-            cases[-1]["fault_cls"] = rng.choice(["SerialException", "SerialTimeoutException", "SerialTimeoutException", "OSError", "PortNotOpenError", None])
+            cases[-1]["fault_cls"] = rng.choice(["SerialException", "SerialTimeoutException", "SerialTimeoutException", "OSError", "PortNotOpenError", "RuntimeError", None])
     # a fault exactly at the write of a request (a full output buffer: pyserial raises SerialTimeoutException, possibly after part of the
     # text has gone out): the request is attempted once, not repeated
     for _ in range(max(10, n // 15)):
@@ -81,13 +81,13 @@ def generate(rng, tier):
         after_kind = "q" if rng.random() < 0.5 else "c"; after_text = rng.choice(QUERIES if after_kind == "q" else COMMANDS)
         ev2, data2 = _reply(rng, after_kind, after_text, 1)
         cases.append({"has_port": True, "reqs": [(kind, text), (after_kind, after_text)], "events": ["F"] + ev2, "expect": ["" if kind == "q" else None, data2],
-                      "fault_cls": rng.choice(["SerialTimeoutException", "SerialTimeoutException", "SerialException", "OSError"]), "family": "fault-at-the-write"})
+                      "fault_cls": rng.choice(["SerialTimeoutException", "SerialTimeoutException", "SerialException", "OSError", "RuntimeError"]), "family": "fault-at-the-write"})
     # the requests that are exempt from fault reporting (RB, and its look-alikes) with a fault at the write, at the first read and at a
     # later read, every exception class: exempt from reporting is not exempt from returning normally
     for text in ("RB\r", "rb\r", " RB \r", "R\r", "BL\r", "RB,1\r", "QR\r"):
         for kind in ("c", "q"):
             for ev in (["F"], ["E", "F"], ["E", "E", "F"], ["E", ("L", "!Err: x"), "F"]):
-                for cls in ("SerialException", "OSError", "SerialTimeoutException"):
+                for cls in ("SerialException", "OSError", "SerialTimeoutException", "RuntimeError"):
                     if rng.random() < (0.5 if tier == "quick" else 1.0):
                         cases.append({"has_port": True, "reqs": [(kind, text), ("q", "QB\r")], "events": list(ev) + _reply(rng, "q", "QB\r", 1)[0], "expect": [None, None],
                                       "fault_cls": cls, "family": "fault-on-an-exempt-request"})
@@ -108,7 +108,7 @@ def _run_impl(c):
     port = S.FakePort(script) if c["has_port"] else None
     if port is not None and c.get("fault_cls"):
         port.force_fault = {"SerialException": serial.SerialException, "SerialTimeoutException": serial.SerialTimeoutException, "OSError": OSError,
-                            "PortNotOpenError": serial.serialutil.PortNotOpenError}[c["fault_cls"]]
+                            "PortNotOpenError": serial.serialutil.PortNotOpenError, "RuntimeError": RuntimeError}[c["fault_cls"]]
     obs = []
     for kind, text in c["reqs"]:
         bw = len(port.writes) if port else 0; bc = script.consumed; ba = port.write_attempts if port else 0
